@@ -9,7 +9,7 @@ ASSUMPTIONS = ["IR sets hold ASCII keys; when neither the exact key nor the key 
                "or the 'off' code is missing, the property is silent and the case is compared with the model only"]
 RULE = ("generated IR sets (toggle / not, special-swing id / ordinary, dense / sparse, duplicate keys, code texts of 1..2000 bytes "
         "with the stored key recoverable from the code) x requests over both power states, the 5 modes, the 4 fan levels, both swings, "
-        "previous power {none, on, off} and target temperatures 0..60, built directly and for a sample through "
+        "previous power {none, on, off} and target temperatures 0..60, built directly on one remote object per set (the same request repeated with another previous power state) and for a sample through "
         "SwitcherBreezeRemoteManager.get_remote on a temporary database; non-trivial = distinct (set, request) pairs the Spec judges")
 REQUIREMENT = ("command = 00000000 ++ hex('Para|HexCode' of the most specific stored key: exact, else without swing, else without fan "
                "level) after clamping the temperature into [min, max]; 'off' code for non-toggle remotes switching off; 'on_' prefix "
@@ -52,14 +52,16 @@ def run_stream(out, stream, cases, via_manager=False):
     try:
         if via_manager:
             tmp = tempfile.mkdtemp(prefix="verif-c15-")
-        io = []; io_caps = []
+        io = []; io_caps = []; remotes = {}
         for k, c in enumerate(cases):
             s = c["irset"]
             if via_manager:
                 path = os.path.join(tmp, "db%d.json" % k); json.dump({s["IRSetID"]: s, "OTHER": world.gen_irset(world.random.Random(k))}, open(path, "w"))
                 mgr = SwitcherBreezeRemoteManager(path); r = mgr.get_remote(s["IRSetID"])
                 if mgr.get_remote(s["IRSetID"]) is not r: io.append("manager did not cache the remote"); io_caps.append("?"); continue
-            else: r = SwitcherBreezeRemote(s)
+            else:
+                if id(s) not in remotes: remotes[id(s)] = SwitcherBreezeRemote(s)      # one remote object serves every request on its set
+                r = remotes[id(s)]
             io_caps.append(caps_impl(r)); io.append(build_impl(r, c["q"]))
     finally:
         if tmp:
@@ -79,7 +81,10 @@ def run(tier, rnd, out):
     cs = []
     for _ in range(60 if tier == "quick" else 600):
         s = world.gen_irset(rnd, long_codes=rnd.random() < .25)
-        for _ in range(25 if tier == "quick" else 60): cs.append({"irset": s, "q": rand_request(rnd, s)})
+        for _ in range(25 if tier == "quick" else 60):
+            q = rand_request(rnd, s); cs.append({"irset": s, "q": q})
+            if rnd.random() < .4:                   # the same request again with another previous power state
+                q2 = list(q); q2[5] = rnd.choice([x for x in (None, True, False) if x != q[5]]); cs.append({"irset": s, "q": q2})
     run_stream(out, "build-command", cs)
     cs = []
     for _ in range(12 if tier == "quick" else 100):
